@@ -156,10 +156,13 @@ def lamVec (P : Params) (theta : List Rat) : List Rat :=
 def meanCols (n : Nat) (cols : List (List Rat)) : List Rat :=
   (List.range n).map (fun j => (cols.map (fun col => col.getD j 0)).sum / (cols.length : Rat))
 
-/-- `if h_idx not in Qsum.index: Qsum.at[h_idx] = 0.0` then `Qsum[h_idx] += 1.0` -/
-def bump (q : List Rat) (i : Nat) : List Rat :=
-  let q' := if i < q.length then q else q ++ List.replicate (i + 1 - q.length) EGLoopGen.qNew
-  q'.set i (q'.getD i 0 + EGLoopGen.qBump)
+/-- `if h_idx not in Qsum.index: Qsum.at[h_idx] = 0.0` then `Qsum[h_idx] += 1.0`.  `Qsum` is a Series keyed by
+    classifier index; here it is the list by index, absent keys are 0 entries (they contribute nothing to any sum). -/
+def bump : List Rat → Nat → List Rat
+  | [], 0 => [EGLoopGen.qNew + EGLoopGen.qBump]
+  | [], i + 1 => 0 :: bump [] i
+  | x :: xs, 0 => (x + EGLoopGen.qBump) :: xs
+  | x :: xs, i + 1 => x :: bump xs i
 
 /-- `Q_EG = Qsum / Qsum.sum()` -/
 def normalise (q : List Rat) : List Rat := q.map (fun x => EGLoopGen.qNorm x q.sum)
@@ -180,43 +183,70 @@ def thetaStep (P : Params) (theta : List Rat) (eta : Rat) (gamma : List Rat) : L
   (List.range P.c.length).map
     (fun j => EGLoopGen.thetaNext (theta.getD j 0) eta (gamma.getD j 0) (P.c.getD j 0))
 
-/-- one pass through the body of `for t in range(0, self.max_iter)` (identity once the loop has been left) -/
-def iter (P : Params) (O : Oracles) (s : State) : State :=
-  if s.done || decide (P.maxIter ≤ s.t) then s else
+/-- everything one pass through the loop body computes before the bookkeeping -/
+structure Decision where
+  lam : List Rat            -- lambda_vec
+  lamEG : List Rat          -- lambda_EG
+  qsum : List Rat
+  gamma : List Rat          -- lagrangian.gammas[h_idx]
+  gapEG : Rat
+  gap : Rat                 -- what is appended to `gaps`
+  q : List Rat              -- what is appended to `Qs`
+  useEG : Bool
+  lpLam : Option (List Rat) -- lambda_vecs_LP_[t] when the LP step ran
+  s2 : State                -- store and counters after the oracle / LP calls
+
+/-- the body of `for t in range(0, self.max_iter)` up to and including the EG-vs-LP choice -/
+def decision (P : Params) (O : Oracles) (s : State) : Decision :=
   let lam := lamVec P s.theta
-  let cols := s.lamCols ++ [lam]
-  let lamEG := meanCols P.c.length cols
+  let lamEG := meanCols P.c.length (s.lamCols ++ [lam])
   let bh := bestH s.hs lam (O.h s.calls)
   let qsum := bump s.qsum bh.2
-  let gamma := (bh.1.getD bh.2 default).gam
   let qEG := normalise qsum
   let ev := evalGap P.ctx O.h bh.1 (s.calls + 1) qEG lamEG
   let gapEG := ev.2.2.gap
   let s1 : State := { s with hs := ev.1, calls := ev.2.1 }
-  let lp : Option (State × LPAns × GapRes) :=
-    if EGLoopGen.skipLP s.t P.runLP then none else some (solveLP P O s1)
-  let s2 : State := match lp with | none => s1 | some r => r.1
-  let useEG : Bool := match lp with | none => true | some r => EGGen.preferEG gapEG r.2.2.gap
-  let gap : Rat := match lp with | none => gapEG | some r => if useEG then gapEG else r.2.2.gap
-  let q : List Rat := match lp with | none => qEG | some r => if useEG then qEG else r.2.1.Q
-  let lamLP := match lp with | none => s.lamLP | some r => s.lamLP ++ [(s.t, r.2.1.lam)]
-  let gapsEG := s.gapsEG ++ [gapEG]
-  let brk := EGGen.breakCond gap P.nu s.t
-  let due := !brk && EGLoopGen.regretDue s.t s.lastChecked
-  let bestGap := minL gapEG s.gapsEG
-  let shrink := due && (match s.lastGap with | none => false | some lg => EGLoopGen.shrinkDue bestGap lg)
-  let eta := if shrink then EGLoopGen.etaShrunk s.eta else s.eta
-  { t := s.t + 1, done := brk,
-    theta := if brk then s.theta else thetaStep P s.theta eta gamma,
-    eta := eta, qsum := qsum,
-    lastChecked := if due then s.t else s.lastChecked,
-    lastGap := if due then some bestGap else s.lastGap,
-    hs := s2.hs, calls := s2.calls, lpCalls := s2.lpCalls, lpN := s2.lpN, lpRes := s2.lpRes,
-    lamCols := cols, lamEGs := s.lamEGs ++ [lamEG], thetas := s.thetas ++ [s.theta], etas := s.etas ++ [eta],
-    gapsEG := gapsEG, gaps := s.gaps ++ [gap], qs := s.qs ++ [q], fromLP := s.fromLP ++ [!useEG], lamLP := lamLP,
-    shrinks := if shrink then s.shrinks + 1 else s.shrinks,
-    checks := if due then s.checks + 1 else s.checks,
-    cacheHits := s2.cacheHits }
+  if EGLoopGen.skipLP s.t P.runLP then
+    { lam := lam, lamEG := lamEG, qsum := qsum, gamma := (bh.1.getD bh.2 default).gam, gapEG := gapEG, gap := gapEG,
+      q := qEG, useEG := true, lpLam := none, s2 := s1 }
+  else
+    let r := solveLP P O s1
+    { lam := lam, lamEG := lamEG, qsum := qsum, gamma := (bh.1.getD bh.2 default).gam, gapEG := gapEG,
+      gap := if EGGen.preferEG gapEG r.2.2.gap then gapEG else r.2.2.gap,
+      q := if EGGen.preferEG gapEG r.2.2.gap then qEG else r.2.1.Q,
+      useEG := EGGen.preferEG gapEG r.2.2.gap, lpLam := some r.2.1.lam, s2 := r.1 }
+
+/-- `if (gaps[t] < self.nu) and (t >= _MIN_ITER): break` -/
+def brkOf (P : Params) (s : State) (D : Decision) : Bool := EGGen.breakCond D.gap P.nu s.t
+/-- the regret check is reached (no break) and due -/
+def dueOf (P : Params) (s : State) (D : Decision) : Bool := !brkOf P s D && EGLoopGen.regretDue s.t s.lastChecked
+/-- `best_gap = min(gaps_EG)` -/
+def bestGapOf (s : State) (D : Decision) : Rat := minL D.gapEG s.gapsEG
+/-- `if best_gap > last_gap * _SHRINK_REGRET` inside a due regret check (`last_gap = inf`: never) -/
+def shrinkOf (P : Params) (s : State) (D : Decision) : Bool :=
+  dueOf P s D && (match s.lastGap with | none => false | some lg => EGLoopGen.shrinkDue (bestGapOf s D) lg)
+def etaOf (P : Params) (s : State) (D : Decision) : Rat :=
+  if shrinkOf P s D then EGLoopGen.etaShrunk s.eta else s.eta
+
+/-- the rest of the body: append, break test, regret check with the eta shrink, theta update -/
+def finish (P : Params) (s : State) (D : Decision) : State :=
+  { t := s.t + 1, done := brkOf P s D,
+    theta := if brkOf P s D then s.theta else thetaStep P s.theta (etaOf P s D) D.gamma,
+    eta := etaOf P s D, qsum := D.qsum,
+    lastChecked := if dueOf P s D then s.t else s.lastChecked,
+    lastGap := if dueOf P s D then some (bestGapOf s D) else s.lastGap,
+    hs := D.s2.hs, calls := D.s2.calls, lpCalls := D.s2.lpCalls, lpN := D.s2.lpN, lpRes := D.s2.lpRes,
+    lamCols := s.lamCols ++ [D.lam], lamEGs := s.lamEGs ++ [D.lamEG], thetas := s.thetas ++ [s.theta],
+    etas := s.etas ++ [etaOf P s D], gapsEG := s.gapsEG ++ [D.gapEG], gaps := s.gaps ++ [D.gap], qs := s.qs ++ [D.q],
+    fromLP := s.fromLP ++ [!D.useEG],
+    lamLP := match D.lpLam with | none => s.lamLP | some l => s.lamLP ++ [(s.t, l)],
+    shrinks := if shrinkOf P s D then s.shrinks + 1 else s.shrinks,
+    checks := if dueOf P s D then s.checks + 1 else s.checks,
+    cacheHits := D.s2.cacheHits }
+
+/-- one pass through the body of `for t in range(0, self.max_iter)` (identity once the loop has been left) -/
+def iter (P : Params) (O : Oracles) (s : State) : State :=
+  if s.done || decide (P.maxIter ≤ s.t) then s else finish P s (decision P O s)
 
 /-- the state after `n` passes; `run` = `max_iter` passes -/
 def runN (P : Params) (O : Oracles) : Nat → State
